@@ -151,9 +151,9 @@ def instances(tier):
             out.append(("representation", {"d": d, "n": n, "which": which}))
     for d, modes in [(2, (0, 1)), (3, (0, 1)), (3, (1, 2)), (3, (1,)), (3, (2,))] + ([(4, (1, 2)), (4, (2, 3)), (4, (0,))] if tier == "thorough" else []):
         out.append(("apply", {"d": d, "modes": list(modes)}))
-    cross = [("Beamsplitter", 2, (0, 1)), ("Phaseshifter", 2, (1,)), ("Squeezing2", 2, (0, 1)), ("IsingXX", 2, (0, 1)), ("Beamsplitter", 3, (1, 2))]
+    cross = [("Beamsplitter", 2, (0, 1)), ("Phaseshifter", 2, (1,)), ("Squeezing2", 2, (0, 1)), ("IsingXX", 2, (0, 1)), ("Beamsplitter", 3, (1, 2)), ("Squeezing2", 3, (1, 2))]
     if tier == "thorough":
-        cross += [("Squeezing2", 3, (1, 2)), ("IsingXX", 3, (0, 1)), ("MachZehnder", 2, (0, 1)), ("Phaseshifter", 3, (0,))]
+        cross += [("IsingXX", 3, (0, 1)), ("IsingXX", 3, (1, 2)), ("Squeezing2", 3, (0, 1)), ("MachZehnder", 2, (0, 1)), ("Phaseshifter", 3, (0,))]
     for g, d, m in cross:
         out.append(("cross", {"gate": g, "d": d, "modes": list(m)}))
     return out
